@@ -60,7 +60,7 @@ func c01FloatToInt(w *World, r *Report) {
 				cands := []ssa.Value{cv.X}
 				if c, ok := cv.X.(*ssa.Call); ok {
 					if sc := c.Call.StaticCallee(); sc != nil && sc.Pkg != nil && sc.Pkg.Pkg.Path() == "math" {
-						switch sc.Name() {
+						switch nm(sc) {
 						case "Floor", "Trunc", "Ceil", "Round", "RoundToEven":
 							cands = append(cands, c.Call.Args[0])
 						}
@@ -186,7 +186,7 @@ func c01Units(w *World, r *Report) {
 			u := unitAny
 			switch x := v.(type) {
 			case *ssa.Call:
-				if b, ok := x.Call.Value.(*ssa.Builtin); ok && b.Name() == "len" {
+				if b, ok := x.Call.Value.(*ssa.Builtin); ok && nm(b) == "len" {
 					if isString(x.Call.Args[0].Type()) {
 						u = unitBytes
 					} else if isRuneSlice(x.Call.Args[0].Type()) {
@@ -396,7 +396,7 @@ func c01ConversionsSSA(w *World, r *Report) {
 			switch x := v.(type) {
 			case *ssa.Field:
 				st := x.X.Type().Underlying().(*types.Struct)
-				return x.X == ssa.Value(f.Params[0]) && st.Field(x.Field).Name() == name
+				return x.X == ssa.Value(f.Params[0]) && nm(st.Field(x.Field)) == name
 			case *ssa.UnOp:
 				if fa, ok := x.X.(*ssa.FieldAddr); ok && x.Op == token.MUL {
 					st := fa.X.Type().Underlying().(*types.Pointer).Elem().Underlying().(*types.Struct)
